@@ -9,6 +9,11 @@ let split_prefix (op : string) : string * n list =
   | Some k -> (String.sub op 0 k, unhex (String.sub op (k + 1) (String.length op - k - 1)))
   | None -> (op, [])
 
+(* build_array / build_object write into the caller's buffer as they go: on an error return the buffer is what the
+   state version of the model says is left in it *)
+let show_buf_st ((b, r) : n list * unit res) : string =
+  match r with Ok _ -> "ok " ^ hex b | Err e -> "err " ^ show_err e ^ " " ^ hex b | Panic -> "panic"
+
 let run (op_full : string) (a : string array) : string =
   let op, prefix = split_prefix op_full in
   match op with
@@ -81,17 +86,17 @@ let run (op_full : string) (a : string array) : string =
   | "array_intersection" -> show_buf prefix (array_intersection_m (unhex a.(0)) (unhex a.(1)) prefix)
   | "array_except" -> show_buf prefix (array_except_m (unhex a.(0)) (unhex a.(1)) prefix)
   | "array_overlap" -> show_res show_bool (array_overlap_m (unhex a.(0)) (unhex a.(1)))
-  | "concat" -> show_buf prefix (concat_m (unhex a.(0)) (unhex a.(1)) prefix)
-  | "delete_by_name" -> show_buf prefix (delete_by_name_m (unhex a.(0)) (unhex a.(1)) prefix)
-  | "delete_by_index" -> show_buf prefix (delete_by_index_m (unhex a.(0)) (z_of_zt (ZA.of_string a.(1))) prefix)
+  | "concat" -> show_buf prefix (concat_w (unhex a.(0)) (unhex a.(1)) prefix)
+  | "delete_by_name" -> show_buf prefix (delete_by_name_w (unhex a.(0)) (unhex a.(1)) prefix)
+  | "delete_by_index" -> show_buf prefix (delete_by_index_w (unhex a.(0)) (z_of_zt (ZA.of_string a.(1))) prefix)
   | "delete_by_keypath" -> show_buf prefix (delete_by_keypath_m (unhex a.(0)) (parse_keypaths a.(1)) prefix)
-  | "array_insert" -> show_buf prefix (array_insert_m (unhex a.(0)) (z_of_zt (ZA.of_string a.(1))) (unhex a.(2)) prefix)
+  | "array_insert" -> show_buf prefix (array_insert_w (unhex a.(0)) (z_of_zt (ZA.of_string a.(1))) (unhex a.(2)) prefix)
   | "object_insert" -> show_buf prefix (object_insert_m (unhex a.(0)) (unhex a.(1)) (unhex a.(2)) (a.(3) = "1") prefix)
   | "object_delete" -> show_buf prefix (object_delete_m (unhex a.(0)) (hexlist a.(1)) prefix)
   | "object_pick" -> show_buf prefix (object_pick_m (unhex a.(0)) (hexlist a.(1)) prefix)
   | "strip_nulls" -> show_buf prefix (strip_nulls_m (unhex a.(0)) prefix)
-  | "build_array" -> show_buf prefix (build_array_m (hexlist a.(0)) prefix)
-  | "build_object" -> show_buf prefix (build_object_m (hexlist a.(0)) (hexlist a.(1)) prefix)
+  | "build_array" -> show_buf_st (build_array_st (hexlist a.(0)) prefix)
+  | "build_object" -> show_buf_st (build_object_st (hexlist a.(0)) (hexlist a.(1)) prefix)
   | "select" -> show_sel prefix (select_w (unhex a.(0)) (parse_jsonpath a.(1)) (mode_of a.(2)) prefix)
   | "sel_exists" -> show_res show_bool (sel_exists_w (unhex a.(0)) (parse_jsonpath a.(1)))
   | "sel_predicate_match" -> show_res show_bool (sel_predicate_match_w (unhex a.(0)) (parse_jsonpath a.(1)))
